@@ -10,6 +10,7 @@ import (
 	"reflect"
 	"strings"
 	"sync"
+	"unicode/utf8"
 
 	"verifharness/drv"
 	"verifharness/fsmon"
@@ -51,7 +52,7 @@ var c18Contents = map[string]string{
 	"HelloLilith.txt": "Hello, Lilith\nHello, \"World\" 42\nHello, 50%off%d%s 100%\n",
 	"numbers.txt":     "7 and 1234 Hello, Ada\\n\tx 9%\n",
 	"100%d.txt":       "Hello, percent%name 3\n",
-	"other.txt":       "nothing to see <here>\nHello, caf\u00e9 na\u00efve \u20ac 7\n",
+	"other.txt":       "nothing to see <here>\nHello, caf\u00e9 na\u00efve \u20ac 7\nHello, \x01ctl\x7f\x0b\x07 8\nHello, bad\xffutf\xc3 9\nHello, \U000E0067tag\U0001D173 10\n",
 	"keep.dat":        "bystander 99 Hello, Nobody",
 	"numb-bers.txt":   "Hello, Star 5\n",
 	"sub/inner.txt":   "deep 12 Hello, Sub\n",
@@ -390,7 +391,7 @@ func c18Run(r *drv.Run, i int, cfg c18Config, lib []wire.Match, libStr [][]wire.
 		// nothing but whitespace may precede the document either: Decode skips only whitespace, so a
 		// leading non-JSON line already failed above
 		doc = stripDir(doc, dir)
-		if !reflect.DeepEqual(doc, any(want)) {
+		if !docEqual(doc, any(want)) {
 			gb, _ := json.Marshal(doc)
 			wb, _ := json.Marshal(want)
 			viol(what+"-differs-from-library-result", map[string]any{"observed": oneLineN(string(gb), 300), "expected": oneLineN(string(wb), 300)})
@@ -478,4 +479,41 @@ func c18Invalid(r *drv.Run) {
 		}
 		os.RemoveAll(dir)
 	}
+}
+
+// docEqual: deep equality of decoded JSON documents, except that a string which is not valid UTF-8 in memory
+// (JSON cannot carry it unchanged; how it is coerced is the encoder's business, C17) matches any string.
+func docEqual(got, want any) bool {
+	switch w := want.(type) {
+	case string:
+		g, ok := got.(string)
+		if !ok {
+			return false
+		}
+		return g == w || !utf8.ValidString(w)
+	case []any:
+		g, ok := got.([]any)
+		if !ok || len(g) != len(w) {
+			return false
+		}
+		for i := range w {
+			if !docEqual(g[i], w[i]) {
+				return false
+			}
+		}
+		return true
+	case map[string]any:
+		g, ok := got.(map[string]any)
+		if !ok || len(g) != len(w) {
+			return false
+		}
+		for k, wv := range w {
+			gv, ok := g[k]
+			if !ok || !docEqual(gv, wv) {
+				return false
+			}
+		}
+		return true
+	}
+	return reflect.DeepEqual(got, want)
 }
